@@ -229,8 +229,10 @@ def pre_removal(ctx, rule='A14p'):
             # the function abstractly; every path that returns the "all options" list assumes the all-permanent test
             from ..rules import absint
             try:
-                hs = {h.node.name: h for h in unit_functions(ctx.prog, u)[1:]}
-                paths = absint.Interp(u, hs, split_tests=True).run()
+                # (on the anchor function: a helper that holds the overflow test is interpreted in place, so a guard
+                # at its call site counts)
+                hs = {h.node.name: h for h in unit_functions(ctx.prog, fn)[1:]}
+                paths = absint.Interp(fn, hs, split_tests=True).run()
                 def all_removed(q):
                     # the list of (choice, <all its options>) pairs: options indexed, not filtered
                     t_ = absint.fmt(absint._t(q.outcome[1])) if q.outcome[0] == 'return' else ''
